@@ -3,7 +3,7 @@
 Program space: progen skeletons (K <= 2 quick, 3 thorough) + seeded random programs, whose identifiers are
 RENAMED (AST level, injective, consistent) to names drawn from the converter's own vocabulary (do_return,
 retval_, break_, continue_, fscope, lscope, get_state, set_state, if_body, else_body, loop_body, loop_test,
-extra_test, itr, inner_factory, outer_factory + numbered variants), in every role of the quantifier: local
+extra_test, itr + numbered variants), in every role of the quantifier: local
 read+written, read only, parameter (of f, of nested functions, of the helpers converted recursively), global
 (read only and `global`-declared + assigned), free variable of a closure, nested function name, loop target,
 and the converted function's own name.
@@ -11,16 +11,22 @@ and the converted function's own name.
 Oracles, per (program, renaming):
   1. C01 differential observation (outcome / tracer events / mutable argument / module globals) of the renamed
      original vs malt.to_graph(renamed original), over adaptively explored decision vectors;
-  2. hygiene: every name returned by malt.pyct.naming.Namer.new_symbol while converting an entity (the function
-     itself and every helper converted recursively at run time) is outside the entity's namespace
-     (globals + closure) and does not coincide with a user identifier visible where the generated symbol is
-     bound (a nested function's own local/parameter of that name is not visible there: counted as benign).
+  2. hygiene (literal clause of C11): every name returned by malt.pyct.naming.Namer.new_symbol while converting an
+     entity (the function itself and every helper converted recursively at run time; Namer.new_symbol and
+     api._convert_actual are wrapped in this process) is disjoint from the identifiers occurring in the
+     entity's source and from its namespace (globals + closure).
 
-Excluded from the default space by construction (recorded defects; explicit witnesses are run instead and
-reported with kind known-D5 / known-D13-*): the names vars_, tuple, dict, ag__ and write-only (never read) uses
-of vocabulary names.  `--space writeonly` lifts the second exclusion (re-derives D5 by search).
+Kept out of the default space by construction, carried by explicit witnesses instead (fixed finding keys):
+  D13  the names vars_, tuple, dict, ag__                        -> known-D13-vars_ / -tuple / -ag__
+  D5   write-only (never read) uses of vocabulary names           -> known-D5        (--space writeonly re-derives)
+  new  bindings of INNER isolated scopes (parameters of nested defs, lambda parameters, comprehension
+       variables) named like generated names: they are not reserved in the enclosing function
+       (activity.Scope.finalize propagates read - bound), found by this stand-in      (--space inner re-derives)
+       -> new-inner-binding-clobbered / new-inner-binding-captures-fscope / new-inner-binding-coincides
+  new  a global read by f that is defined only after conversion and named ag__<f> / inner_factory
+       (new_symbol(..., ()) reserves nothing)                                      -> new-late-global-captured
 
-usage: c11_names.py <seed> <tier> [--k K] [--random N] [--space default|writeonly] [--maxfail N]
+usage: c11_names.py <seed> <tier> [--k K] [--random N] [--space default|inner|writeonly|full] [--maxfail N]
 """
 import argparse
 import ast
@@ -42,7 +48,9 @@ from malt.pyct import naming
 
 VOCAB = ['do_return', 'retval_', 'break_', 'continue_', 'fscope', 'lscope', 'get_state', 'set_state',
          'if_body', 'else_body', 'loop_body', 'loop_test', 'extra_test', 'itr']
-VOCAB_EXTRA = ['inner_factory', 'outer_factory']     # reserved with () by transpiler._PythonFnFactory.create
+# requested with an empty reserved set by transpiler._PythonFnFactory.create; a user LOCAL of that name shadows the
+# factory harmlessly although the literal hygiene clause is violated: only drawn with --space full
+VOCAB_EXTRA = ['inner_factory', 'outer_factory']
 EXCLUDED = ['vars_', 'tuple', 'dict', 'ag__']          # D13
 GV = 'gv_counter'                                      # injected `global`-declared, assigned global
 BUILTIN_NAMES = set(dir(builtins))
@@ -221,6 +229,31 @@ def write_only_names(root):
   return out
 
 
+def propagated_read(s):
+  """Reads of a scope as malt's activity analysis propagates them: an isolated inner scope hands up read - bound."""
+  out = set(s.read)
+  for c in s.children:
+    out |= propagated_read(c) - c.bound - c.nonlocals - c.globals if c.kind in ('function', 'comp') else propagated_read(c)
+  return out
+
+
+def inner_only_names(root):
+  """Names bound in an inner isolated scope (nested def, lambda, comprehension) that no enclosing function
+  reads: Scope.referenced of the enclosing function does not contain them, so they are not reserved there."""
+  out = set()
+  for s in all_scopes(root):
+    if s.kind != 'function':
+      continue
+    reserved, cur = set(), s
+    while cur is not None and cur.kind != 'module':
+      reserved |= propagated_read(cur)
+      cur = cur.parent
+    for d in s.descendants():
+      if d.kind in ('function', 'comp'):
+        out |= (d.bound - d.nonlocals - d.globals) - reserved
+  return out
+
+
 def roles_of(root, names, fname):
   """Role tags (quantifier vocabulary) of each of `names`, from the scopes of the program."""
   tags = set()
@@ -362,18 +395,22 @@ def rename(src, mapping):
   tree = _Rename(mapping).visit(tree)
   ast.fix_missing_locations(tree)
   out = ast.unparse(tree) + '\n'
-  for alias in ('G', 'f', GV):          # the harness finds these under their original names
+  for alias in ('G', 'f'):              # the harness finds these under their original names
     if alias in mapping:
       out += '%s = %s\n' % (alias, mapping[alias])
+  if GV in mapping:
+    out += '_GVNAME = %r\n' % mapping[GV]
   return out
 
 
 def classify(ident):
-  if ident in ('x', 'y', 'z', 'w', 'print_', 'q', 'err'):
+  if ident == 'q' or ident == 'p' or ident.startswith('p_'):
+    return 'inner'                     # lambda parameter / comprehension variable / nested-def parameter
+  if ident in ('x', 'y', 'z', 'w', 'print_', 'err'):
     return 'local'
   if ident.startswith('fuel_') or ident.startswith('i_') or ident.startswith('j_'):
     return 'loop'
-  if ident.startswith('g_') or ident.startswith('p_') or ident == 'p':
+  if ident.startswith('g_'):
     return 'nested'
   if ident in ('t', 'c', 'a', 'k', 'rest', 'exc', 'self'):
     return 'param'
@@ -401,10 +438,10 @@ def relevant_roots(tree):
   return sorted(set(r))
 
 
-def draw_names(rnd, n, relevant, style, taken):
+def draw_names(rnd, n, relevant, style, taken, with_extra=False):
   rel = [b for b in relevant]
   rnd.shuffle(rel)
-  others = [b for b in VOCAB + VOCAB_EXTRA if b not in rel]
+  others = [b for b in VOCAB + (VOCAB_EXTRA if with_extra else []) if b not in rel]
   rnd.shuffle(others)
   bases = rel + others
   seq = []
@@ -426,22 +463,35 @@ def draw_names(rnd, n, relevant, style, taken):
 
 
 STRATEGIES = [('local', 'plain'), ('loop', 'plain'), ('nested', 'plain'), ('param', 'plain'),
-              ('global', 'plain'), ('all', 'plain'), ('all', 'numbered'), ('all', 'gap')]
+              ('global', 'plain'), ('all', 'plain'), ('all', 'numbered'), ('all', 'gap'), ('inner', 'plain')]
+GROUPS = ['local', 'loop', 'nested', 'param', 'global', 'inner']
+
+KEY_ROLE = dict(local='local', loop='loop-variable', nested='nested-function-name', param='parameter',
+                inner='inner-scope-binding')
 
 
-def make_mapping(rnd, src, group, style, allow_write_only):
+def key_role(k):
+  if k == 'f':
+    return 'function-name'
+  if k == GV:
+    return 'assigned-global'
+  return KEY_ROLE.get(classify(k), 'other') if classify(k) != 'global' else 'global'
+
+
+def make_mapping(rnd, src, group, style, allow_write_only, allow_inner, with_extra=False):
   tree = ast.parse(src)
   idents = identifiers(tree)
   root = build_scopes(tree)
   wo = set() if allow_write_only else write_only_names(root)
-  cands = sorted(i for i in idents if classify(i) and i not in wo and not i.startswith('__'))
+  inner = set() if allow_inner else inner_only_names(root)
+  cands = sorted(i for i in idents if classify(i) and i not in wo and i not in inner and not i.startswith('__'))
   if group != 'all':
     cands = [i for i in cands if classify(i) == group]
   else:
     keep = [i for i in cands if rnd.random() < 0.7]
     cands = keep or cands[:1]
   rnd.shuffle(cands)
-  names = draw_names(rnd, len(cands), relevant_roots(tree), style, idents | BUILTIN_NAMES)
+  names = draw_names(rnd, len(cands), relevant_roots(tree), style, idents | BUILTIN_NAMES, with_extra)
   return dict(zip(cands, names))
 
 
@@ -499,102 +549,58 @@ def _entity_tree(entity):
 
 
 def hygiene(rec):
-  """(violations, benign) for one conversion record."""
+  """Literal C11 clause: names returned by new_symbol for this conversion vs. identifiers of the entity's source
+  and its namespace (globals + closure).  Returns the list of coinciding names, each with where the user uses it."""
   entity = rec['entity']
   gen = [n for _, n, _ in rec['names']]
   if not gen:
-    return [], 0
+    return []
   ns = set(getattr(entity, '__globals__', {}))
   ns.update(getattr(getattr(entity, '__code__', None), 'co_freevars', ()))
   tree = _entity_tree(entity)
   ids = identifiers(tree) if tree is not None else set()
-  bad, benign = [], 0
-  overlap = [n for n in gen if n in ns or n in ids]
-  if not overlap:
-    return bad, benign
-  uroot = build_scopes(tree) if tree is not None else None
-  groot = None
-  if rec['transformed'] is not None:
-    gtree = _entity_tree(rec['transformed'])
-    groot = build_scopes(gtree) if gtree is not None else None
-  for n in overlap:
+  bad = []
+  for n in gen:
     if n in ns:
-      bad.append(dict(name=n, why='in the namespace (globals/closure) of %s' % getattr(entity, '__name__', entity)))
+      bad.append(dict(name=n, where=['namespace (globals/closure) of %s' % getattr(entity, '__name__', entity)]))
+    elif n in ids:
+      bad.append(dict(name=n, where=where_used(build_scopes(tree), n)))
+  return bad
+
+
+def where_used(root, name):
+  out = []
+  top = [c for c in root.children if c.kind == 'function']
+  for s in all_scopes(root):
+    if s.kind == 'module' or not (name in s.bound or name in s.read):
       continue
-    why = _visible_clash(n, uroot, groot)
-    if why:
-      bad.append(dict(name=n, why=why))
+    is_top = any(s is t for t in top)
+    if name in s.params:
+      what = 'parameter'
+    elif name in s.bound and name not in s.nonlocals and name not in s.globals:
+      what = 'comprehension variable' if s.kind == 'comp' else 'local'
     else:
-      benign += 1
-  return bad, benign
-
-
-def _user_function_scopes(uroot):
-  """user function scopes by path of def names, e.g. ('f',), ('f', 'g_1')."""
-  out = {}
-
-  def walk(s, path):
-    for c in s.children:
-      if c.kind == 'function' and c.name != '<lambda>':
-        out[path + (c.name,)] = c
-        walk(c, path + (c.name,))
-      else:
-        walk(c, path)
-  walk(uroot, ())
-  return out
-
-
-def _visible_clash(name, uroot, groot):
-  """Is user identifier `name` visible at a scope where the generated code binds `name`?  None if not."""
-  if uroot is None or groot is None:
-    return 'cannot analyse the generated source; %r occurs in the user source' % name
-  ufun = _user_function_scopes(uroot)
-  top = [k for k in ufun if len(k) == 1]
-  if len(top) != 1:
-    return 'cannot map scopes; %r occurs in the user source' % name
-  topname = top[0][0]
-  user_names = set(k[-1] for k in ufun)
-  owners = set()
-  for s in all_scopes(groot):
-    if s.kind == 'module' or name not in s.bound or name in s.nonlocals or name in s.globals:
-      continue
-    # path of user functions enclosing this generated binding
-    path, cur = [], s
-    while cur is not None and cur.kind != 'module':
-      if cur.kind == 'function':
-        if cur.name in user_names:
-          path.append(cur.name)
-        elif cur.name.startswith('ag__') and cur.name[4:].split('_')[0] == topname.split('_')[0]:
-          path.append(topname)
-      cur = cur.parent
-    path = tuple(reversed(path))
-    if path and path[0] != topname:
-      path = (topname,) + path
-    owners.add(ufun.get(path))
-  if not owners:
-    return None
-  for owner in owners:
-    if owner is None:
-      return 'generated binding of %r could not be attributed to a user function' % name
-    for d in [owner] + list(owner.descendants()):
-      if name in d.read or name in d.bound or name in d.globals or name in d.nonlocals:
-        r = resolve(d, name)
-        inner = r is not None and r is not owner and any(r is x for x in owner.descendants())
-        if not inner:
-          return ('user name %r used in %s resolves to %s, where the generated %r is bound'
-                  % (name, d.path(), 'the same scope' if r is owner else 'an outer scope', name))
-  return None
+      r = resolve(s, name)
+      what = 'global/builtin read' if (r is None or r.kind == 'module') else 'free variable'
+    owner = {'function': 'the function itself' if is_top else 'nested function %s' % s.name,
+             'comp': 'a comprehension', 'class': 'class %s' % s.name}[s.kind]
+    if s.name == '<lambda>':
+      owner = 'a lambda'
+    out.append('%s of %s' % (what, owner))
+  return sorted(set(out))
 
 
 # ------------------------------------------------------------------------------------------- running a case
 
+
 def observe(fn, mod, bits, a0=(5, 7)):
+  """harness.observe + the injected rebinding global."""
   t = harness.Tracer()
   c = harness.Decisions(bits, t)
   a = list(a0)
   mod.G[0] = 0
-  has_gv = hasattr(mod, GV)
   gvname = getattr(mod, '_GVNAME', GV)
+  has_gv = hasattr(mod, gvname)
   if has_gv:
     setattr(mod, gvname, 0)
   try:
@@ -604,8 +610,8 @@ def observe(fn, mod, bits, a0=(5, 7)):
     outcome = ('raise', 'RecursionError')
   except Exception as e:
     outcome = ('raise', harness.exc_kind(e))
-  return dict(outcome=outcome, events=t.events, a=repr(a), G=(mod.G[0], getattr(mod, gvname, None) if has_gv else None),
-              used=c.i)
+  return dict(outcome=outcome, events=t.events, a=repr(a),
+              G=(mod.G[0], getattr(mod, gvname, None) if has_gv else None), used=c.i)
 
 
 def _short(o):
@@ -614,9 +620,14 @@ def _short(o):
   return d
 
 
+_SERIAL = [0]
+
+
 def run_case(src, name, maxlen=6, cap=32, extra_globals=None):
-  """Convert f of `src` and compare; returns dict(failure, runs, collided, generated, benign, roles...)."""
-  res = dict(runs=0, failure=None, collided=0, generated=0, benign=0, events=0)
+  """Convert f of `src`, compare, check hygiene.  -> dict(failure, runs, collided, generated, events)."""
+  res = dict(runs=0, failure=None, collided=0, generated=0, events=0)
+  _SERIAL[0] += 1
+  name = '%s_%d' % (name, _SERIAL[0])       # never reuse a file name: inspect/linecache key on it
   del _REC[:]
   del _FALLBACKS[:]
   try:
@@ -647,21 +658,22 @@ def run_case(src, name, maxlen=6, cap=32, extra_globals=None):
       else:
         same = (o1['outcome'], o1['events'], o1['a'], o1['G']) == (o2['outcome'], o2['events'], o2['a'], o2['G'])
       if res['failure'] is None and not same:
-        res['failure'] = dict(kind='observable-difference', sig='diff', decisions=list(bits),
-                              what='renamed original and its conversion differ', original=_short(o1),
-                              converted=_short(o2))
+        res['failure'] = dict(kind='observable-difference',
+                              sig=o2['outcome'][1] if o2['outcome'][0] == 'raise' else 'value',
+                              decisions=list(bits), what='renamed original and its conversion differ',
+                              original=_short(o1), converted=_short(o2))
       return o1['used']
     harness.adaptive_vectors(run, max_len=maxlen, cap=cap)
     for rec in _REC:
       res['generated'] += len(rec['names'])
       res['collided'] += sum(1 for _, _, c in rec['names'] if c)
-      bad, benign = hygiene(rec)
-      res['benign'] += benign
+      bad = hygiene(rec)
       if bad and res['failure'] is None:
-        res['failure'] = dict(kind='generated-name-visible', sig=bad[0]['name'],
-                              what='new_symbol returned %r while converting %s: %s'
-                              % (bad[0]['name'], getattr(rec['entity'], '__qualname__', rec['entity']), bad[0]['why']),
-                              all=bad)
+        res['failure'] = dict(kind='generated-name-visible', sig='hygiene-only',
+                              what='new_symbol returned %r while converting %s; the user source uses that name as: %s '
+                              '(no behavioural difference observed in this case)'
+                              % (bad[0]['name'], getattr(rec['entity'], '__qualname__', rec['entity']),
+                                 '; '.join(bad[0]['where'])), all=bad)
     if _FALLBACKS and res['failure'] is None:
       res['failure'] = dict(kind='conversion-fallback', sig=_FALLBACKS[0].split(':')[1].strip(),
                             what='a recursively converted helper failed to convert and ran as-is: %s' % _FALLBACKS[0])
@@ -670,35 +682,28 @@ def run_case(src, name, maxlen=6, cap=32, extra_globals=None):
   return res
 
 
+def _base(n):
+  for v in VOCAB + VOCAB_EXTRA:
+    if n == v or (n.startswith(v + '_') and n[len(v) + 1:].isdigit()):
+      return v
+  return n
+
+
 def check_case(item):
   idx, base_src, mapping, label = item
   name = 'vp_c11_%d_%d' % (os.getpid(), idx)
   src = rename(base_src, mapping)
   res = run_case(src, name)
   res.update(idx=idx, label=label)
-  vocab_used = sorted(mapping.values())
-  tree = ast.parse(src)
   fname = mapping.get('f', 'f')
-  res['roles'] = sorted(set((_base(n), r) for n, r in roles_of(build_scopes(tree), vocab_used, fname)))
+  res['roles'] = sorted(set((_base(n), r) for n, r in roles_of(build_scopes(ast.parse(src)), sorted(mapping.values()), fname)))
   if res['failure'] is not None:
     f = res['failure']
     # is the renaming responsible?  the same program under the identity renaming must pass
-    base = run_case(rename(base_src, {}), name + '_b')
-    f['fails_without_renaming'] = base['failure'] is not None
+    f['fails_without_renaming'] = run_case(rename(base_src, {}), name + '_b')['failure'] is not None
     f['program'] = src
     f['mapping'] = mapping
   return res
-
-
-def _base(n):
-  p = n.split('_')
-  while p and p[-1].isdigit():
-    p = p[:-1]
-  b = '_'.join(p)
-  for v in VOCAB + VOCAB_EXTRA:
-    if n == v or (n.startswith(v + '_') and n[len(v) + 1:].isdigit()):
-      return v
-  return b
 
 
 def minimise(item):
@@ -712,14 +717,14 @@ def minimise(item):
     r = run_case(rename(base_src, trial), name)
     if r['failure'] is not None and r['failure']['kind'] == kind:
       cur = trial
-  r = run_case(rename(base_src, cur), name)
-  return idx, cur, r['failure']
+  return idx, cur, run_case(rename(base_src, cur), name)['failure']
 
 
 # ------------------------------------------------------------------------------------------- witnesses
 
 HEAD = 'G = [0]\n'
 
+# (kind, sig, program, what).  known-* are the recorded defects D5 / D13; new-* were found by this stand-in.
 WITNESSES = [
     ('known-D5', 'write-only-break_', HEAD + '''
 def f(t, c, a):
@@ -728,7 +733,7 @@ def f(t, c, a):
     if c():
       break
   return locals()['break_']
-''', None, "a write-only user local named break_ in a loop with a break is clobbered by the generated control variable"),
+''', "a write-only user local named break_ in a loop with a break is clobbered by the generated control variable"),
     ('known-D5', 'write-only-loop-target-break_', HEAD + '''
 def f(t, c, a):
   for break_ in range(1, 4):
@@ -736,14 +741,14 @@ def f(t, c, a):
     if c():
       break
   return 0
-''', None, "a never-read loop target named break_ is the generated break flag: the loop stops after one iteration"),
+''', "a never-read loop target named break_ doubles as the generated break flag: the loop stops after one iteration"),
     ('known-D13-vars_', 'state-variable-vars_', HEAD + '''
 def f(t, c, a):
   vars_ = 0
   if c():
     vars_ = 1
   return vars_
-''', None, "a user state variable named vars_ clashes with the hard-coded parameter of the generated state setter"),
+''', "a user state variable named vars_ clashes with the hard-coded parameter of the generated state setter"),
     ('known-D13-tuple', 'local-tuple', HEAD + '''
 def h(*args):
   return args
@@ -751,7 +756,7 @@ def h(*args):
 def f(t, c, a):
   tuple = t
   return h(1, *a)
-''', None, "a user local named tuple is called by the generated positional-argument packing"),
+''', "a user local named tuple is called by the generated positional-argument packing"),
     ('known-D13-tuple', 'local-dict', HEAD + '''
 def h(**kw):
   return sorted(kw)
@@ -760,30 +765,66 @@ def f(t, c, a):
   dict = t
   kw = {'k': 1}
   return h(j=2, **kw)
-''', None, "a user local named dict is called by the generated keyword-argument packing"),
+''', "a user local named dict is called by the generated keyword-argument packing"),
     ('known-D13-ag__', 'global-ag__', HEAD + '''
 ag__ = 'user global'
 
 def f(t, c, a):
   return ag__
-''', None, "a user global named ag__ is shadowed by the injected operator module"),
+''', "a user global named ag__ is shadowed by the injected operator module"),
+    ('new-inner-binding-clobbered', 'nested-def-param-else_body', HEAD + '''
+def f(t, c, a):
+  if c():
+    y = 0
+  else:
+    def g(else_body):
+      return else_body
+    y = g(1)
+  return y
+''', "parameter of a nested def inside an else branch named else_body: not reserved (inner bound names never reach "
+     "Scope.referenced) and leaked into the branch's `bound` (D7), so `else_body = ag__.Undefined('else_body')` is "
+     "emitted after the generated `def else_body()` -> TypeError: 'Undefined' object is not callable"),
+    ('new-inner-binding-clobbered', 'lambda-param-loop_body', HEAD + '''
+def f(t, c, a):
+  y = 0
+  for i in range(2):
+    y = (lambda loop_body: loop_body + 1)(y)
+  return y
+''', "lambda parameter inside a for body named loop_body: `loop_body = ag__.Undefined('loop_body')` overwrites the "
+     "generated body function"),
+    ('new-inner-binding-captures-fscope', 'lambda-param-fscope', HEAD + '''
+def f(t, c, a):
+  return (lambda fscope: fscope + t(1))(2)
+''', "a lambda parameter named fscope captures the function-scope variable that generated converted_call(...) "
+     "arguments inside the lambda body refer to -> AttributeError: 'int' object has no attribute 'callopts'"),
+    ('new-inner-binding-captures-fscope', 'comprehension-var-fscope', HEAD + '''
+def f(t, c, a):
+  return [t(fscope) for fscope in range(2)]
+''', "a comprehension variable named fscope captures the function-scope variable used by converted_call inside the "
+     "comprehension"),
+    ('new-inner-binding-coincides', 'nested-def-param-retval_', HEAD + '''
+def f(t, c, a):
+  def g(retval_):
+    return retval_ + 1
+  return g(t(1))
+''', "new_symbol returns retval_ for f although f's source uses retval_ (parameter of the nested g): hygiene clause "
+     "only, g gets its own retval__1 and behaves"),
 ]
 
-# Candidates for new findings: roles the renaming cannot produce (run always; reported only when they fail).
+# sanity probes: roles the renaming cannot produce; expected to pass (reported as probe-* only when they fail)
 PROBES = [
-    ('late-global', 'inner_factory', HEAD + '''
+    ('global-present-at-conversion', 'inner_factory', HEAD + '''
 def f(t, c, a):
   return inner_factory(t(1))
-''', dict(inner_factory=lambda v: ('user', v)),
-     "a global read by f but defined only after... at conversion time the namespace already has it"),
-    ('builtin-shadow', 'itr-builtin-like-global-defined-late', HEAD + '''
+''', dict(inner_factory=lambda v: ('user', v))),
+    ('global-read-in-loop', 'itr', HEAD + '''
 def f(t, c, a):
   z = 0
   for i in a:
     z = z + itr
   return z
-''', dict(itr=3), "a global read inside a for body named itr"),
-    ('read-in-aug-only', 'break_-augassign-only', HEAD + '''
+''', dict(itr=3)),
+    ('read-by-augmented-assignment-only', 'break_', HEAD + '''
 def f(t, c, a):
   break_ = 10
   for i in range(3):
@@ -791,8 +832,8 @@ def f(t, c, a):
     if c():
       break
   return t(0)
-''', None, "a user local named break_ that is only read by an augmented assignment"),
-    ('del-only', 'continue_-del', HEAD + '''
+''', None),
+    ('deleted-only', 'continue_', HEAD + '''
 def f(t, c, a):
   continue_ = 1
   for i in range(2):
@@ -802,31 +843,21 @@ def f(t, c, a):
     t(9)
   del continue_
   return 0
-''', None, "a user local named continue_ whose only use after binding is del"),
-    ('nested-local', 'nested-own-local-retval_', HEAD + '''
-def f(t, c, a):
-  def g(retval_):
-    if c():
-      return retval_ + 1
-    return retval_
-  if c():
-    return g(1)
-  return g(5)
-''', None, "a nested function's parameter named retval_"),
-    ('class-attr', 'closure-read-fscope', HEAD + '''
+''', None),
+    ('closure-reads-enclosing-local', 'fscope', HEAD + '''
 def f(t, c, a):
   fscope = 7
   def g():
     return fscope + t(1)
   return g()
-''', None, "a closure reads the enclosing local fscope"),
+''', None),
 ]
 
 
 def late_global_probe():
   """A global that f reads but that is defined only AFTER conversion (role: global, not yet in the namespace)."""
-  out = []
-  for gname in ['inner_factory', 'outer_factory', 'ag__f', 'fscope', 'do_return', 'retval_']:
+  out, status = [], {}
+  for gname in ['inner_factory', 'outer_factory', 'ag__f', 'fscope', 'do_return', 'retval_', 'if_body', 'get_state']:
     src = HEAD + 'def f(t, c, a):\n  if c():\n    return 1\n  return %s\n' % gname
     name = 'vp_c11_late_%d_%s' % (os.getpid(), gname)
     mod = harness.load_source(src, name)
@@ -834,33 +865,41 @@ def late_global_probe():
       try:
         g = malt.to_graph(mod.f)
         setattr(mod, gname, 'user value defined later')
-        want, got = mod.f(lambda k: k, lambda: False, []), None
+        want = mod.f(lambda k: k, lambda: False, [])
         try:
           got = g(lambda k: k, lambda: False, [])
         except Exception as e:
           got = 'raised %s' % type(e).__name__
       except Exception as e:
         want, got = 'converts', 'to_graph raised %s: %s' % (type(e).__name__, str(e)[:100])
-      if got != want:
-        out.append(dict(kind='late-global-captured', sig=gname,
-                        what='global %r defined after conversion: original returns %r, converted %r' % (gname, want, got),
-                        program=src, replay='define the global after malt.to_graph(f), then call both'))
+      status['new-late-global-captured:' + gname] = 'passes' if repr(got) == repr(want) else 'fails'
+      if repr(got) != repr(want):
+        out.append(dict(kind='new-late-global-captured', sig=gname,
+                        what='global %r read by f but defined after malt.to_graph(f) (new_symbol(.., ()) reserves '
+                        'nothing for ag__<f>/inner_factory): original gives %r, conversion gives %.120r' % (gname, want, got),
+                        program=src, replay='g = malt.to_graph(f); define the global; call f and g with c() False'))
     finally:
       harness.unload(name)
-  return out
+  return status, out
 
 
 def run_witnesses():
   status, failures = {}, []
-  for i, (kind, sig, src, extra, what) in enumerate(WITNESSES + PROBES):
-    r = run_case(src, 'vp_c11_w_%d_%d' % (os.getpid(), i), extra_globals=extra)
-    known = kind.startswith('known-')
+  for i, (kind, sig, src, what) in enumerate(WITNESSES):
+    r = run_case(src, 'vp_c11_w_%d_%d' % (os.getpid(), i))
     status['%s:%s' % (kind, sig)] = 'fails' if r['failure'] else 'passes'
     if r['failure']:
       f = r['failure']
-      failures.append(dict(kind=kind if known else 'probe-' + kind, sig=sig,
-                           what='%s [%s: %s]' % (what, f['kind'], f['what'][:200]), program=src,
+      failures.append(dict(kind=kind, sig=sig, what='%s [%s: %s]' % (what, f['kind'], f['what'][:240]), program=src,
+                           replay='write `program` to a file, import it, compare f with malt.to_graph(f) (c01 observation)',
                            observed={k: v for k, v in f.items() if k in ('decisions', 'original', 'converted', 'all')}))
+  for i, (kind, sig, src, extra) in enumerate(PROBES):
+    r = run_case(src, 'vp_c11_p_%d_%d' % (os.getpid(), i), extra_globals=extra)
+    status['probe-%s:%s' % (kind, sig)] = 'fails' if r['failure'] else 'passes'
+    if r['failure']:
+      f = r['failure']
+      failures.append(dict(kind='probe-' + kind, sig=sig, what='%s: %s' % (f['kind'], f['what'][:300]), program=src,
+                           extra_globals=sorted(extra or ()), observed={k: v for k, v in f.items() if k in ('decisions', 'original', 'converted', 'all')}))
   return status, failures
 
 
@@ -872,13 +911,14 @@ def main():
   ap.add_argument('tier')
   ap.add_argument('--k', type=int, default=None)
   ap.add_argument('--random', type=int, default=None)
-  ap.add_argument('--space', default='default', choices=['default', 'writeonly'])
+  ap.add_argument('--space', default='default', choices=['default', 'inner', 'writeonly', 'full'])
   ap.add_argument('--maxfail', type=int, default=10)
   a = ap.parse_args()
   thorough = a.tier == 'thorough'
   K = a.k if a.k is not None else (3 if thorough else 2)
   nrand = a.random if a.random is not None else (10000 if thorough else 1000)
-  allow_wo = a.space == 'writeonly'
+  allow_wo = a.space in ('writeonly', 'full')
+  allow_inner = a.space in ('inner', 'full')
   install()
   rnd = random.Random(a.seed)
   items = []
@@ -886,90 +926,99 @@ def main():
   for tree in progen.skeletons(K):
     nskel += 1
     if K >= 3 and nskel % 4 and progen.control_count(tree) == 3:
-      continue                                   # thorough: every 4th of the K=3 layer
+      continue                                   # thorough: every 4th program of the K=3 layer
     base = prepare(progen.skeleton_program(tree), with_gv=nskel % 2 == 0)
     for group, style in STRATEGIES:
-      m = make_mapping(rnd, base, group, style, allow_wo)
+      m = make_mapping(rnd, base, group, style, allow_wo, allow_inner, a.space == 'full')
       if m:
         items.append((len(items), base, m, 'skeleton/%s/%s' % (group, style)))
   for i in range(nrand):
     base = prepare(progen.random_program(a.seed * 1000003 + i, size=2 + (i % 5)), with_gv=i % 3 == 0)
-    for group, style in [('all', ['plain', 'numbered', 'gap'][i % 3]), (['local', 'loop', 'nested', 'param', 'global'][i % 5], 'plain')]:
-      m = make_mapping(rnd, base, group, style, allow_wo)
+    plans = [('all', ['plain', 'numbered', 'gap'][i % 3])]
+    if i % 3 == 0:
+      plans.append((GROUPS[(i // 3) % len(GROUPS)], 'plain'))
+    for group, style in plans:
+      m = make_mapping(rnd, base, group, style, allow_wo, allow_inner, a.space == 'full')
       if m:
         items.append((len(items), base, m, 'random/%s/%s' % (group, style)))
 
-  runs = cases = nontrivial = benign = generated = collided = 0
+  runs = cases = nontrivial = generated = collided = 0
   seen, roles, raw_failures, samples = set(), set(), [], []
   for r in harness.pool_map(check_case, items, chunksize=4):
     cases += 1
     runs += r['runs']
     generated += r['generated']
     collided += r['collided']
-    benign += r['benign']
     roles.update(tuple(x) for x in r['roles'])
     it = items[r['idx']]
     h = hashlib.sha1((it[1] + repr(sorted(it[2].items()))).encode()).hexdigest()
     if r['collided'] and r['events'] > 3 and h not in seen:
       seen.add(h)
       nontrivial += 1
-      if len(samples) < 2 and it[3].startswith('random') and len(it[2]) <= 6:
+      if len(samples) < 2 and it[3].startswith('random') and 2 <= len(it[2]) <= 5:
         samples.append(dict(mapping=it[2], label=it[3], program=rename(it[1], it[2])[-500:]))
     if r['failure']:
       raw_failures.append((r['idx'], r['failure'], r['label']))
 
-  # distinct failures, minimised
-  raw_failures.sort(key=lambda x: (len(x[1].get('mapping', {})), x[0]))
-  failures, keys = [], set()
-  todo = []
+  # minimise (renaming-wise) a diverse selection, then one failure per (kind, roles of the minimal renaming, outcome)
+  raw_failures.sort(key=lambda x: (len(x[1].get('mapping', {})), len(x[1].get('program', '')), x[0]))
+  todo, pre = [], {}
   for idx, f, label in raw_failures:
-    if len(todo) >= a.maxfail * 2:
-      break
-    todo.append((idx, items[idx][1], f['mapping'], f['kind']))
+    k = (f['kind'], f['sig'], label.split('/')[1])
+    if pre.get(k, 0) < 3 and len(todo) < 48 and 'mapping' in f:
+      pre[k] = pre.get(k, 0) + 1
+      todo.append((idx, items[idx][1], f['mapping'], f['kind']))
   minimised = {}
   if todo:
     for idx, m, f in harness.pool_map(minimise, todo, chunksize=1):
-      minimised[idx] = (m, f)
+      if f is not None:
+        minimised[idx] = (m, f)
+  failures, keys = [], set()
   for idx, f, label in raw_failures:
-    if idx in minimised and minimised[idx][1] is not None:
-      m, f2 = minimised[idx]
-      f2 = dict(f2)
-      f2['fails_without_renaming'] = f['fails_without_renaming']
-      f2['mapping'] = m
-      f2['program'] = rename(items[idx][1], m)
-      f = f2
-    tree = ast.parse(f['program'])
-    rl = sorted(set('%s/%s' % (n, r) for n, r in roles_of(build_scopes(tree), sorted(f['mapping'].values()), f['mapping'].get('f', 'f'))))
-    f['sig'] = ('%s:%s' % (f['sig'], ','.join(rl)))[:160]
-    f['label'] = label
-    f['replay'] = 'write `program` to a file, import it, compare f with malt.to_graph(f) on decisions (c01 observation)'
-    key = (f['kind'], f['sig'])
+    if idx not in minimised:
+      continue
+    m, f2 = minimised[idx]
+    f2 = dict(f2)
+    f2.update(fails_without_renaming=f['fails_without_renaming'], mapping=m, program=rename(items[idx][1], m), label=label)
+    f2['sig'] = '%s:%s' % ('+'.join(sorted(set(key_role(k) for k in m))) or 'no-renaming', f2['sig'])
+    f2['names'] = sorted(m.values())
+    f2['replay'] = ('write `program` to a file, import it, compare f with malt.to_graph(f) on `decisions` '
+                    '(c01 observation); `mapping` is the minimal renaming of the progen program')
+    key = (f2['kind'], f2['sig'])
     if key in keys:
       continue
     keys.add(key)
     if len(failures) < a.maxfail:
-      failures.append(f)
+      failures.append(f2)
 
   wstatus, wfail = run_witnesses()
-  wfail += late_global_probe()
+  lstatus, lfail = late_global_probe()
+  wstatus.update(lstatus)
   wanted_roles = ['local_read_written', 'read_only', 'parameter', 'global', 'free_variable',
                   'nested_function_name', 'loop_target', 'function_name']
-  cov = {r: sorted(b for b, rr in roles if rr == r) for r in wanted_roles + ['assigned_only']}
+  cov = {r: sorted(b for b, rr in roles if rr == r and b in VOCAB) for r in wanted_roles + ['assigned_only']}
+  excluded = ['names vars_/tuple/dict/ag__ (D13)']
+  if not allow_wo:
+    excluded.append('write-only uses of vocabulary names (D5)')
+  if not allow_inner:
+    excluded.append('inner-scope bindings (nested-def parameters, lambda parameters, comprehension variables) renamed '
+                    'into the vocabulary (new finding, see new-inner-binding-* witnesses)')
+  tm = os.times()
   harness.emit(dict(
-      evaluated=runs, cases=cases, skeleton_programs=nskel, random_programs=nrand, K=K,
+      evaluated=runs, cases=cases, cpu_seconds=round(tm[0] + tm[2], 1), skeleton_programs=nskel, random_programs=nrand, K=K,
       distinct_nontrivial=nontrivial, new_symbol_calls=generated, new_symbol_collisions_with_user_names=collided,
-      benign_inner_scope_overlaps=benign, space=a.space,
-      role_coverage={r: len(v) for r, v in cov.items()},
+      space=a.space, excluded_by_construction=excluded,
+      vocabulary_names_per_role={r: len(v) for r, v in cov.items()},
       roles_missing={r: sorted(set(VOCAB) - set(v)) for r, v in cov.items() if r in wanted_roles and set(VOCAB) - set(v)},
       failing_cases=len(raw_failures),
       witnesses=wstatus,
-      rule=('progen skeletons K<=%d x %d renaming strategies + %d random programs x 2 renamings; identifiers renamed '
-            'injectively into the converter vocabulary (+_1/_2 variants, inner_factory/outer_factory); excluded by '
-            'construction: vars_/tuple/dict/ag__ (D13) and write-only vocabulary names (D5); each case explored over '
-            '<=32 adaptive decision vectors of length <=6; evaluated = (original, converted) run pairs; non-trivial = '
-            'distinct (program, renaming) where at least one new_symbol request collided with a user name and the '
-            'run produced > 3 events') % (K, len(STRATEGIES), nrand),
-      samples=samples, failures=(failures + wfail)[:a.maxfail + len(WITNESSES) + 8]))
+      rule=('progen skeletons K<=%d x %d renaming strategies + %d random programs x 1-2 renamings; identifiers renamed '
+            'injectively into the converter vocabulary (%d roots, +_1/_2 variants); each '
+            'case explored over <=32 adaptive decision vectors of length <=6; evaluated = (original, converted) run '
+            'pairs; non-trivial = distinct (program, renaming) where at least one new_symbol request collided with a '
+            'user name (non-trivial branch of Namer.new_symbol) and some run produced > 3 events'
+            % (K, len(STRATEGIES), nrand, len(VOCAB))),
+      samples=samples, failures=failures + wfail))
 
 
 if __name__ == '__main__':
